@@ -91,6 +91,30 @@ func Cleanup() {
 	}
 }
 
+// WithPlayground returns the project as the builder sees it: a single-file (virtual root) project is built next to the
+// fixed playground files, which its text may INCLUDE.
+func WithPlayground(p *Project) *Project {
+	if p.NeedsDisk() {
+		return p
+	}
+	q := p.Clone()
+	q.Root = filepath.Base(p.Root)
+	if q.Root != p.Root {
+		q.Files[q.Root] = q.Files[p.Root]
+		delete(q.Files, p.Root)
+	}
+	dir := filepath.Dir(PlayRoot())
+	for _, n := range []string{"inc.jst", "a.jst", "self.jst", "empty.jst", "resp.jst", "sub/inc2.jst"} {
+		if _, ok := q.Files[n]; ok {
+			continue
+		}
+		if b, err := os.ReadFile(filepath.Join(dir, filepath.FromSlash(n))); err == nil {
+			q.Files[n] = b
+		}
+	}
+	return q
+}
+
 // PlayRoot is the virtual root path of single-file builds.
 func PlayRoot() string { return filepath.Join(WorkDir(), "play", "root.jst") }
 
@@ -152,8 +176,8 @@ func Build(p *Project) (res *Built) {
 		rootPath = rp
 		res.Dir = dir
 	} else {
-		rootPath = PlayRoot()
-		dir = filepath.Dir(rootPath)
+		dir = filepath.Dir(PlayRoot())
+		rootPath = filepath.Join(dir, filepath.Base(p.Root))
 	}
 	var opts []core.Option
 	if len(p.Banned) > 0 {
